@@ -15,7 +15,7 @@ PS = re.compile(r'^output\.ValidateServicesExist: (.*): service "([^"]*)" does n
 PARAM_SHAPES = ["%{n}%", "pre %{n}% post", "%{n}%%{n}%", "%%%{n}%", "%{n}%%%", "a%%b%{n}%c", "%p_ok%-%{n}%", "%env(\"HOME\")%/%{n}%",
                 "%{n}%://%host%:%p_ok%", "%host%/%{n}%/%p_ok%", "%{n}%%host%%{n}%%p_ok%", "%zz_{n}%-%{n}%-%aa_{n}%",
                 "%host%%host%%{n}%", "%host%, %host%! %p_ok% %{n}%", "%p_ok%%p_ok%%p_ok%%{n}%%host%"]
-POSITIONS = ["param", "sarg", "carg", "field", "darg", "warg", "stararg", "deadarg"]
+POSITIONS = ["param", "sarg", "carg", "field", "darg", "warg", "stararg", "deadarg", "sarg0", "carg0", "darg0"]
 
 
 def base_cfg():
@@ -42,6 +42,12 @@ def put(cfg, pos, val):
         cfg["services"]["tgt"].setdefault("fields", {})["Dep"] = val
     elif pos == "darg":
         cfg["decorators"][0]["arguments"].append(val)
+    elif pos == "sarg0":     # first of several constructor arguments
+        cfg["services"]["tgt"]["arguments"] = [val] + cfg["services"]["tgt"]["arguments"] + ["%p_ok%"]
+    elif pos == "carg0":     # first argument of a call with more arguments behind it
+        cfg["services"]["tgt"].setdefault("calls", []).append(["SetX", [val, "@dep", "%p_ok%"]])
+    elif pos == "darg0":     # first argument of a decorator with more arguments behind it
+        cfg["decorators"][0]["arguments"] = [val] + cfg["decorators"][0]["arguments"] + ["@dep"]
     elif pos == "warg":      # argument of a wither call (third element true)
         cfg["services"]["tgt"].setdefault("calls", []).append(["WithX", [val], True])
     elif pos == "stararg":   # decorator on the tag "*" (which no service can carry)
